@@ -93,6 +93,7 @@ def pworld (inits : List Init) : World M PV where
   int := .int
   str := .str
   list := .list
+  newList vs := pure (.list vs)
   tuple := .list
   global := pGlobal
   truthy
